@@ -22,11 +22,13 @@ def model(comps, x, y):
 
 
 def _central(comps, k, name, x, y, h):
-    cp = [dict(c) for c in comps]
-    cm = [dict(c) for c in comps]
-    cp[k][name] += h
-    cm[k][name] -= h
-    return (model(cp, x, y) - model(cm, x, y)) / (2 * h)
+    # the model is a sum, so only component k depends on its own parameter: differencing that component alone avoids
+    # the cancellation error a bright neighbour would add (dynamic ranges of 1e6 occur in the workloads)
+    cp = dict(comps[k])
+    cm = dict(comps[k])
+    cp[name] += h
+    cm[name] -= h
+    return (model([cp], x, y) - model([cm], x, y)) / (2 * h)
 
 
 def partial(comps, k, name, x, y):
